@@ -16,6 +16,8 @@ RUN = re.compile(r"^\(run out=([0-9a-f]*) status=(-?\d+) diag=(.*)\)$")
 
 
 def explore(ctx):
+    import os
+    os.environ["VDRIVER_BIG_STACK"] = "1"      # files of 100 KiB and more: the extracted lexer recurses on the system stack
     h = common.hexs
     n = 400 if ctx.quick else 4000
     cases = []
@@ -54,6 +56,16 @@ def explore(ctx):
                     cases.append({"lines": lines, "forms": ["<%d bytes, %r %d byte(s) before offset %d>" % (len(text.encode()), ch, back, boundary)],
                                   "fault": None, "fault_index": None, "eol": repr(eol), "final_newline": True})
                     dist["block boundary"] = dist.get("block boundary", 0) + 1
+    # a long run of comment and blank lines before and between the forms (flat text must not consume stack)
+    for nlines in ([3000] if ctx.quick else [3000, 20000]):
+        for eol in ("\n", "\r\n"):
+            block = "".join("; comment line %d%s%s" % (k, eol, eol if k % 7 == 0 else "") for k in range(nlines))
+            text = "(import (scheme base) (scheme write))" + eol + block + '(display "after the comments")' + eol + block + "(display (+ 1 2))" + eol
+            lf = text.replace("\r\n", "\n")
+            cases.append({"lines": ["FILE %s %s %s" % (h("prog"), h("main.scm"), h(text)), "RUNBIN %s %s" % (h("prog"), h("main.scm")),
+                                    "NEW 0 plain", "EVAL 0 " + h(lf)],
+                          "forms": ["<%d comment lines twice>" % nlines], "fault": None, "fault_index": None, "eol": repr(eol), "final_newline": True})
+            dist["long comment block"] = dist.get("long comment block", 0) + 1
     # special files
     for content, name in (("", "empty"), ("(import (scheme write))(display 1)", "one-line"), ("; only a comment", "comment")):
         cases.append({"lines": ["FILE %s %s %s" % (h("prog"), h("main.scm"), h(content)), "RUNBIN %s %s" % (h("prog"), h("main.scm")),
@@ -103,7 +115,7 @@ def explore(ctx):
                 "directory and run through the built binary from ANOTHER working directory: stdout bytes, exit status and "
                 "the diagnostic's location vs the model; stdout vs in-process evaluation of the same text; the same program "
                 "with the other line-end convention and final-newline choice must give the same result; plus files of 4-130 KiB in which a 2-, 3- or 4-byte character "
-                "or a CR LF pair lies across a power-of-two byte offset; plus empty, "
+                "or a CR LF pair lies across a power-of-two byte offset; files with 3000 (20000) consecutive comment and blank lines; plus empty, "
                 "comment-only, non-UTF-8, directory and missing files. non-trivial = program with a failing form",
         "exhaustive": False,
         "input_distribution": dist,
@@ -113,6 +125,8 @@ def explore(ctx):
 
 
 def replay(ctx, path):
+    import os
+    os.environ["VDRIVER_BIG_STACK"] = "1"
     with common.Lock():
         common.build_binary()
     return common.replay_case(ctx, path)
